@@ -47,7 +47,7 @@ end
 /-- what `modules` holds after the inner loop when no call raised -/
 def payloads : ModDict → List (String × PyVal)
   | [] => []
-  | (k, .mod v) :: rest => (k, v) :: payloads rest
+  | (k, .mod _ v) :: rest => (k, v) :: payloads rest
   | _ :: rest => payloads rest
 
 def valueFault (m : ModDict) : Bool := faultyKvs (payloads m)
@@ -68,11 +68,11 @@ theorem dictFaulty_split : ∀ m : ModDict, dictFaulty m = (raisingDict m || val
       rw [dictFaulty_cons, raisingDict_cons, dictFaulty_split rest]
       cases s with
       | none => simp [ModSpec.faulty, ModSpec.raising, valueFault, payloads]
-      | mod v =>
+      | mod t v =>
         simp only [ModSpec.faulty, ModSpec.raising, valueFault, payloads, faultyKvs, Bool.false_or]
         cases v.faulty <;> cases raisingDict rest <;> simp
-      | raises e => simp [ModSpec.faulty, ModSpec.raising]
-      | invalid => simp [ModSpec.faulty, ModSpec.raising]
+      | raises t e => simp [ModSpec.faulty, ModSpec.raising]
+      | invalid raw => simp [ModSpec.faulty, ModSpec.raising]
 
 theorem denoteKvs_payloads : ∀ m : ModDict, denoteKvs (payloads m) = modsDoc m
   | [] => by simp [payloads, denoteKvs, modsDoc]
@@ -86,10 +86,10 @@ theorem convertModules_ok (i : Nat) : ∀ (j : Nat) (m : ModDict), raisingDict m
       simp only [raisingDict_cons, Bool.or_eq_false_iff] at h
       have ih := convertModules_ok i (j + 1) rest h.2
       cases s with
-      | none => simpa [convertModules, payloads] using ih
-      | mod v => simp [convertModules, payloads, ih]
-      | raises e => simp [ModSpec.raising] at h
-      | invalid => simp [ModSpec.raising] at h
+      | none => simpa [convertModules, ModSpec.isNone, payloads] using ih
+      | mod t v => simp [convertModules, ModSpec.isNone, payloads, ih]
+      | raises t e => simp [ModSpec.raising] at h
+      | invalid raw => simp [ModSpec.raising] at h
 
 theorem convertModules_err (i : Nat) : ∀ (j : Nat) (m : ModDict), raisingDict m = true →
     ∃ e, (convertModules i j m).out = .error e
@@ -99,13 +99,13 @@ theorem convertModules_err (i : Nat) : ∀ (j : Nat) (m : ModDict), raisingDict 
       cases s with
       | none =>
         simp only [ModSpec.raising, Bool.false_eq_true, false_or] at h
-        simpa [convertModules] using convertModules_err i (j + 1) rest h
-      | mod v =>
+        simpa [convertModules, ModSpec.isNone] using convertModules_err i (j + 1) rest h
+      | mod t v =>
         simp only [ModSpec.raising, Bool.false_eq_true, false_or] at h
         obtain ⟨e, he⟩ := convertModules_err i (j + 1) rest h
-        exact ⟨e, by simp [convertModules, he]⟩
-      | raises e => exact ⟨e, by simp [convertModules]⟩
-      | invalid => exact ⟨typeError, by simp [convertModules]⟩
+        exact ⟨e, by simp [convertModules, ModSpec.isNone, he]⟩
+      | raises t e => exact ⟨e, by simp [convertModules, ModSpec.isNone]⟩
+      | invalid raw => exact ⟨typeError, by simp [convertModules, ModSpec.isNone]⟩
 
 theorem convertModules_trace (i : Nat) : ∀ (j : Nat) (m : ModDict),
     ∀ ev ∈ (convertModules i j m).trace, ev.isConversion = true
@@ -113,15 +113,15 @@ theorem convertModules_trace (i : Nat) : ∀ (j : Nat) (m : ModDict),
   | j, (k, s) :: rest => by
       have ih := convertModules_trace i (j + 1) rest
       cases s with
-      | none => simpa [convertModules] using ih
-      | mod v =>
+      | none => simpa [convertModules, ModSpec.isNone] using ih
+      | mod t v =>
         intro ev hev
-        simp only [convertModules, List.mem_cons] at hev
+        simp [convertModules, ModSpec.isNone] at hev
         rcases hev with rfl | hev
         · rfl
         · exact ih ev hev
-      | raises e => simp [convertModules, Ev.isConversion]
-      | invalid => simp [convertModules]
+      | raises t e => simp [convertModules, ModSpec.isNone, Ev.isConversion]
+      | invalid raw => simp [convertModules, ModSpec.isNone]
 
 
 /-! ### the record loop -/
